@@ -6,7 +6,7 @@ idx_path = os.path.join(ROOT, "coq", "Props", "index.json")
 idx = json.load(open(idx_path)) if os.path.exists(idx_path) else {}
 
 TB = ("Trusted: Coq 8.16.1 kernel and vm_compute (no native_compute); no axioms declared (Print Assumptions of every property theorem is "
-      "checked on each run); rs2v (syn-based translator: tables, constants and 34 functions of the source regenerated into Coq on each run; cross-checked by tools/gen_tables.py; u8 arithmetic checked, machine-word overflow of usize counters not modelled); extraction with ExtrOcamlBasic only and ocaml/driver.ml "
+      "checked on each run); rs2v (syn-based translator: tables, constants and 38 functions of the source regenerated into Coq on each run; cross-checked by tools/gen_tables.py; u8 arithmetic checked, machine-word overflow of usize counters not modelled); extraction with ExtrOcamlBasic only and ocaml/driver.ml "
       "(parsing/printing glue); the Rust harness; Spec.v as a transcription of UAX #9 rev. 50; rustc/core behaviour "
       "(char_indices, len_utf8/16, decode_utf16, binary_search_by, stable sort) as modelled in ModelText.v.")
 
@@ -72,7 +72,7 @@ m = {
            "source_commits": [], "add_only": True},
  "engines": [{"name": "coq-model+correspondence", "path": "/verif/coq, /verif/rs2v, /verif/ocaml, /verif/harness, /verif/tools/check.py",
               "serves_properties": sorted(P.keys()),
-              "kind_free_text": "Coq 8.16.1 development (model of the code, UAX#9 spec, judges, theorems) + source translator rs2v (data and 34 functions, with tie theorems) + differential correspondence between the real crate and the extracted model"}],
+              "kind_free_text": "Coq 8.16.1 development (model of the code, UAX#9 spec, judges, theorems) + source translator rs2v (data and 38 functions, with tie theorems) + differential correspondence between the real crate and the extracted model"}],
  "checks": checks,
  "not_applicable": [],
  "notes": "All eleven defects found on the pinned tree (D1-D11) were repaired by fix: commits in /repo (known_findings.txt). The public API suffices for every observation; no hook is needed (hooks.source_commits is empty).",
